@@ -343,7 +343,23 @@ def skipsRemove (o : Opts) (doc : Value) (path : List Bytes) : Res Bool :=
 implementation's spelling; irrelevant when `limit = 0`); `acc` = bytes copied so far -/
 def applyOp (o : Opts) (size : Nat) (acc : Nat) (doc : Value) (op : Op) : Res (Value × Nat) :=
   match parsePointer op.path with
-  | none => .unspec
+  | none =>
+    -- RFC 6901: a non-empty pointer starts with `/`.  (With AllowMissingPathOnRemove the
+    -- library treats such a remove as "nothing there": left open.)
+    if op.kind = .remove ∧ o.allowMissing then .unspec
+    else match op.kind with
+      -- move / copy: the source half is evaluated first, its failure is the one reported
+      | .move =>
+        match parsePointer op.frm with
+        | none => .fail .parentUnreachable
+        | some [] => .fail .moveFromRoot
+        | some frm => (atParent o (removeIn o) doc frm).bind fun _ => .fail .parentUnreachable
+      | .copy =>
+        match parsePointer op.frm with
+        | none => .fail .parentUnreachable
+        | some [] => .fail .parentUnreachable
+        | some frm => (atParent o (getIn o false) doc frm).bind fun _ => .fail .parentUnreachable
+      | _ => .fail .parentUnreachable
   | some path =>
   match op.kind with
   | .add =>
@@ -375,7 +391,7 @@ def applyOp (o : Opts) (size : Nat) (acc : Nat) (doc : Value) (op : Op) : Res (V
       | _ => (atParent o (replaceIn o v) doc path).bind fun (d, _) => .ok (d, acc)
   | .move =>
     match parsePointer op.frm with
-    | none => .unspec
+    | none => .fail .parentUnreachable
     | some [] => .fail .moveFromRoot
     | some frm =>
       (atParent o (removeIn o) doc frm).bind fun (d, v) =>
@@ -384,7 +400,7 @@ def applyOp (o : Opts) (size : Nat) (acc : Nat) (doc : Value) (op : Op) : Res (V
         | _ => (atParent o (addIn o v) d path).bind fun (d', _) => .ok (d', acc)
   | .copy =>
     match parsePointer op.frm with
-    | none => .unspec
+    | none => .fail .parentUnreachable
     | some frm =>
       let src : Res Value := match frm with
         | [] => .ok doc
